@@ -24,6 +24,7 @@ def match_configs():
         "empty matches": [(0, 0), (3, 3), (n, n)],
         "empty match adjacent to a match": [(2, 5), (5, 5), (9, 12)],
         "spread": [(1, 2), (5, 9), (15, 16)],
+        "eleven matches, some empty": [(i, i + (i % 2)) for i in range(0, 22, 2)],
     }
     return cfg
 
@@ -40,6 +41,7 @@ def capture_configs():
         "two empty captures at the same offset": [((0, 2), [(1, 1), (1, 1)]), ((5, 5), [(5, 5), (5, 5), (5, 5)])],
         "identical non-empty spans in different matches": [((0, 2), [(0, 2)]), ((2, 4), [(2, 4)])],
         "empty capture where the previous capture ended": [((0, 4), [(0, 2), (2, 2), (2, 4)])],
+        "eleven groups in one match": [((0, n), [(i, i + 1) if i % 3 else ((i, i) if i % 2 else None) for i in range(0, 22, 2)])],
         "no match": [],
     }
 
